@@ -236,6 +236,33 @@ U("print_cfg", entry="h_print_cfg", func="cfg_print_pff_indent", cbmc=unw(68) + 
 U("print_hooks", entry="h_print_hooks", func="cfg_opt_set_print_func, cfg_set_print_filter_func", cbmc=unw(68) + NOOOM, label="proof (loop-free)", props=["C19", "C02"], cost=5,
   carriers=["carriers/print_carriers.c"], **PRT)
 
+U("roundtrip_str", tu="spec", harness="harness/roundtrip.c", entry="h_roundtrip_str", func="lemma: spec_decode_dq(spec_print_str(s)) == s", defs={"quick": ["-DRTN=3"], "thorough": ["-DRTN=4"]},
+  cbmc={"quick": unw(12) + NOOOM, "thorough": unw(14) + NOOOM}, label="bounded(string <= 3 bytes quick / 4 thorough over bytes 1..255); lemma over spec functions", props=["C05"], cost=60)
+U("roundtrip_title", tu="spec", harness="harness/roundtrip.c", entry="h_roundtrip_title", func="lemma: spec_decode_dq('\"' t '\"') == t", defs={"quick": ["-DRTN=3"], "thorough": ["-DRTN=4"]},
+  cbmc={"quick": unw(12) + NOOOM, "thorough": unw(14) + NOOOM}, label="bounded(title <= 3 bytes quick / 4 thorough); lemma over spec functions", props=["C05"], cost=60)
+
+# ------------------------------------------------------------------ entry points and glue
+ENT = dict(harness="harness/entry.c", defs={"quick": ["-DCFGV_FIXED_DUP=8"]})
+ENTC = dict(remove=["cfg_parse_internal", "cfg_opt_setnint", "cfg_opt_setnfloat", "cfg_opt_setnbool", "cfg_opt_setnstr", "cfg_setopt", "cfg_searchpath", "cfg_tilde_expand", "cfg_getopt"],
+            carriers=["carriers/entry_carriers.c", "carriers/resolvers.c", "carriers/cfg_getopt.c"])
+ENTTRUST = ["fopen/fmemopen/fclose: assumed contracts with a ghost open-set"]
+U("parse_fp", entry="h_parse_fp", func="cfg_parse_fp", cbmc=unw(8) + NOOOM + LEAK, label="proof (loop-free; parser core and scanner helpers by contract; the copy of the default name may fail)",
+  props=["C08", "C13", "C01", "C06", "C18", "C07", "C02"], cost=10, trusted=ENTTRUST, **ENT, **ENTC)
+U("parse_buf", entry="h_parse_buf", func="cfg_parse_buf, cfg_parse_fp", cbmc=unw(8) + NOOOM + LEAK, label="bounded(buffer <= 2 bytes); callees by contract", props=["C01", "C06", "C07", "C08", "C18", "C02"], cost=10,
+  trusted=ENTTRUST, **ENT, **ENTC)
+U("parse_file", entry="h_parse_file", func="cfg_parse, cfg_parse_fp", cbmc=unw(8) + NOOOM + LEAK, label="proof (loop-free; resolvers, file layer and parser core by contract)", props=["C17", "C07", "C01", "C06", "C13", "C02"], cost=10,
+  trusted=ENTTRUST, **ENT, **ENTC)
+U("cfg_include", entry="h_cfg_include", func="cfg_include", cbmc=unw(8) + NOOOM, label="proof (loop-free)", props=["C13", "C14", "C06", "C02"], cost=5, **ENT, **ENTC)
+ENTC2 = dict(remove=["cfg_parse_internal", "cfg_searchpath", "cfg_tilde_expand", "cfg_getopt"], carriers=["carriers/entry_carriers_min.c", "carriers/resolvers.c", "carriers/cfg_getopt.c"])
+U("call_function", entry="h_call_function", func="call_function, cfg_free_value", cbmc=unw(8) + OOM + LEAK, label="bounded(<= 2 arguments; the argument vector's allocation may fail)", props=["C14", "C07", "C18", "C02"], cost=20,
+  **ENT, **ENTC2)
+U("init_defaults", entry="h_init_defaults", func="cfg_init_defaults", cbmc=unw(8) + NOOOM, label="bounded(one option; 14 literal kinds: type x LIST/NODEFAULT/MULTI x simple x textual default; callees by contract)",
+  props=["C01", "C08", "C07", "C02"], cost=30, trusted=ENTTRUST, **ENT, **ENTC)
+U("init_defaults_abort", entry="h_init_defaults_abort", func="cfg_init_defaults (abort path)", cbmc=unw(8) + NOOOM, expect_canary=False, label="proof (loop-free): finding unit", props=["C18", "C02"], cost=5,
+  trusted=ENTTRUST, **ENT, **ENTC)
+U("addtsec", entry="h_addtsec", func="cfg_addtsec, cfg_gettsec, cfg_opt_gettsec, cfg_opt_gettsecidx", cbmc=unw(8) + NOOOM, label="bounded(one existing instance; titles 1 byte over all bytes; 4 case-rule combinations; store by contract)",
+  props=["C09", "C10", "C06", "C18", "C02"], cost=20, **ENT, **ENTC)
+
 # ------------------------------------------------------------------ per-property text for MANIFEST / evidence
 HOOK_COMMITS = ["b37b503"]
 NOT_APPLICABLE = {}
